@@ -18,7 +18,7 @@ def _h(name, tu, src, unwind=8, quick=None, thorough=None, kf=(), **kw):
 def _d4(e, dims=(1, 2, 3), **kw): return _dims(e, dims, **kw) + [_c(4, 2, _unwind=10)]   # dim 4: extents 1..2 (hybrid capacity 64)
 def _SP(e): return [_c(d, e, SECTIONS=n) for d in (1, 2, 3) for n in (1, 2, 3)]
 BD = 'hybrid source array (capacity 64) of dim DIM (enumerated 1..3, and 4 with extents 1..2 where a DIM=4 query is listed), every extent 1..MAXE, all element data, the result index and the arguments symbolic'
-B2 = 'two hybrid source arrays (capacity 64) of dim DIM (enumerated 1..3), extents 1..MAXE, both data buffers, the result index and the arguments symbolic'
+B2 = 'two hybrid source arrays (capacity 64) of dim DIM (enumerated 1..3, and 4 with extents 1..2 where a DIM=4 query is listed), extents 1..MAXE, both data buffers, the result index and the arguments symbolic'
 HARNESSES = [
  _h('tile', 'C04_replicate', 'C04_replicate', quick=_d4(3), thorough=_d4(4), bounds=BD + '; reps: list of 1..4 entries each 1..3'),
  _h('repeat', 'C04_replicate', 'C04_replicate', quick=_d4(3), thorough=_d4(4), bounds=BD + '; scalar repeats 1..3, axis in [-DIM,DIM)', kf=['KF_C04_REPEAT_NEGAXIS']),
@@ -40,8 +40,8 @@ HARNESSES = [
  _h('sliding_all', 'C04_window', 'C04_window', bounds=BD + '; one window extent 1..n_k per axis, axis=None'),
  _h('tril', 'C04_window', 'C04_window', quick=_d4(3), thorough=_d4(4), bounds=BD + '; k in [-MAXE,MAXE]'),
  _h('triu', 'C04_window', 'C04_window', quick=_dims(3), thorough=_d4(4), bounds=BD + '; k in [-MAXE,MAXE]'),
- _h('diagonal', 'C04_window', 'C04_window', quick=_d4(3, (2, 3)), thorough=_d4(4, (2, 3)), bounds=BD + ' (DIM 2..3); offset in (-MAXE,MAXE) with a non-empty diagonal, axis1 != axis2 in [-DIM,DIM)', kf=['KF_C04_DIAGONAL_NEGOFFSET']),
- _h('diagonal_default', 'C04_window', 'C04_window', quick=_dims(3, (2, 3)), thorough=_d4(4, (2, 3)), bounds=BD + ' (DIM 2..3); default offset/axes'),
+ _h('diagonal', 'C04_window', 'C04_window', quick=_d4(3, (2, 3)), thorough=_d4(4, (2, 3)), bounds=BD + ' (DIM 2..4); offset in (-MAXE,MAXE) incl. empty diagonals (shape only), axis1 != axis2 in [-DIM,DIM)', kf=['KF_C04_DIAGONAL_NEGOFFSET', 'KF_C04_DIAGONAL_BEYOND']),
+ _h('diagonal_default', 'C04_window', 'C04_window', quick=_dims(3, (2, 3)), thorough=_d4(4, (2, 3)), bounds=BD + ' (DIM 2..4); default offset/axes'),
 ] + [
  _h(n, 'C04_generate', 'C04_generate', quick=[{'MAXN': 4}], thorough=[{'MAXN': 8}], bounds='N, M in 1..MAXN, k in [-MAXN,MAXN], result index: all symbolic' + x)
  for n, x in (('eye', ''), ('eye_square', '; M=None'), ('identity', '; identity(N)'), ('tri', ''), ('tri_square', '; M=None'))
@@ -67,8 +67,8 @@ HARNESSES = [
  _h('split', 'C04_split', 'C04_split', quick=_SP(3), thorough=_SP(4),
     bounds=BD + '; section count a per-query constant 1..3 (compile-time in nmtools) dividing the extent, axis in [-DIM,DIM), piece number symbolic'),
  _h('repeat_each', 'C04_multi', 'C04_multi', quick=_d4(3), thorough=_d4(4), kf=['KF_C04_REPEAT_NEGAXIS'], bounds=BD + '; one repeat count 0..3 per element along axis (sum >= 1), axis in [-DIM,DIM)'),
- _h('roll_axes', 'C04_multi', 'C04_multi', quick=_dims(3, (2, 3)), thorough=_dims(4, (2, 3)), kf=['KF_C04_ROLL_BIGSHIFT'], bounds=BD + ' (DIM 2..3); two distinct axes in [-DIM,DIM), one shift in [-2n,2n] per axis'),
- _h('roll_axes_scalar', 'C04_multi', 'C04_multi', quick=_dims(3, (2, 3)), thorough=_dims(4, (2, 3)), kf=['KF_C04_ROLL_BIGSHIFT'], bounds=BD + ' (DIM 2..3); two distinct axes, one scalar shift'),
+ _h('roll_axes', 'C04_multi', 'C04_multi', quick=_dims(3, (2, 3)), thorough=_dims(4, (2, 3)), kf=['KF_C04_ROLL_BIGSHIFT', 'KF_C04_ROLL_REPEATED_AXIS'], bounds=BD + ' (DIM 2..3); two axes in [-DIM,DIM) (equal or distinct), one shift in [-2n,2n] per axis'),
+ _h('roll_axes_scalar', 'C04_multi', 'C04_multi', quick=_dims(3, (2, 3)), thorough=_dims(4, (2, 3)), kf=['KF_C04_ROLL_BIGSHIFT', 'KF_C04_ROLL_REPEATED_AXIS'], bounds=BD + ' (DIM 2..3); two axes (equal or distinct), one scalar shift'),
  _h('sliding_axes', 'C04_multi', 'C04_multi', quick=_dims(3, (2, 3)), thorough=_dims(4, (2, 3)), bounds=BD + ' (DIM 2..3); two distinct axes in [-DIM,DIM), window 1..n per axis'),
  _h('expand_axes', 'C04_multi', 'C04_multi', quick=_dims(3, (2, 3)), thorough=_dims(4, (2, 3)), bounds=BD + ' (DIM 2..3); two distinct axes, spacing 0..2 per axis, fill symbolic'),
  _h('expand_axes_scalar', 'C04_multi', 'C04_multi', quick=_dims(3, (2, 3)), thorough=_dims(4, (2, 3)), bounds=BD + ' (DIM 2..3); two distinct axes, scalar spacing 0..2'),
@@ -84,11 +84,11 @@ HARNESSES = [
 OUTSIDE = [
  'linspace and arange on real (non-integer) grids: element values are IEEE expressions whose only solver oracle would be the same expression (weak); not claimed',
  'source dims > 4; dim 4 only with extents 1..2 (hybrid capacity 64) and only for the harnesses that list a DIM=4 query; extents > 4 at the view level (index-level harnesses: extents <= 8)',
- 'empty results: diagonal offsets beyond the matrix, empty take/compress selections are observed by shape only (compress) or excluded (diagonal)',
- 'roll / sliding_window / expand over more than two axes or with repeated axes; take with multi-dimensional index arrays; concatenate/stack of more than two operands (nmtools is binary)',
+ 'empty results (diagonal at the matrix edge, all-false compress) are observed by shape only',
+ 'roll / sliding_window / expand over more than two axes; sliding_window / expand with a repeated axis; take with multi-dimensional index arrays; concatenate/stack of more than two operands (nmtools is binary)',
  'split with run-time sections/indices at the view level (returns a std::vector of views): covered at the slice-argument level (split_args) and, for a compile-time section count 1..3, at the view level',
  'where with broadcasting operands (C06); compile-time (constant) arguments and fixed-shape arrays (C09); invalid arguments (C15); evaluation into arrays (the views are read element-wise)',
- 'regions of the PENDING_FINDINGS (negative axis in repeat/take/concatenate/stack/compress, negative take indices, |shift| beyond one wrap in roll, negative diagonal offset, empty / >2^24 arange): '
+ 'regions of the PENDING_FINDINGS (negative axis in repeat/take/concatenate/stack/compress, negative take indices, |shift| beyond one wrap in roll, repeated roll axis, negative diagonal offset, diagonal offset beyond the matrix, empty / >2^24 arange): '
  'excluded by KF_C04_* macros, each with a natively replayed witness',
 ]
 ASSUMPTIONS = [
@@ -110,6 +110,13 @@ PENDING_FINDINGS = [
  dict(id='C04-roll-shift-beyond-extent', harness='roll_axes', exclude_define='KF_C04_ROLL_BIGSHIFT', witness_config={'DIM': 2, 'MAXE': 3},
       witness_inputs=['0x3', '0x3', '0x0', '0x0', '0x20000000', '0x0', '0x0', '0x0', '0x0', '0x0', '0x0', '0x0', '0x1', '0x6', '0xfffffffffffffffe', '0x0', '0x0', '0x0', '0x2'],
       what='same defect with an axis list: shape (3,3), shift=(6,-2), axes=(0,1)'),
+ dict(id='C04-roll-repeated-axis', harness='roll_axes', exclude_define='KF_C04_ROLL_REPEATED_AXIS', witness_config={'DIM': 2, 'MAXE': 3, 'KF_C04_ROLL_BIGSHIFT': 1},
+      witness_inputs=['0x3', '0x2', '0x10', '0x10', '0x10', '0x10', '0x0', '0x0', '0x10', '0x10', '0x10', '0x0', '0x0', '0xfffffffffffffffc', '0x1', '0x0', '0x0', '0x2', '0x2'],
+      what='view::roll with the same axis listed twice: NumPy accumulates the shifts, index::roll recomputes the source index from the destination index for every entry (roll.hpp:145-150) so the last '
+           'shift wins: shape (3,2), shift=(-4,1), axes=(0,0) -> NumPy rolls axis 0 by -3 (identity), nmtools by 1'),
+ dict(id='C04-roll-repeated-axis', harness='roll_axes_scalar', exclude_define='KF_C04_ROLL_REPEATED_AXIS', witness_config={'DIM': 2, 'MAXE': 3, 'KF_C04_ROLL_BIGSHIFT': 1},
+      witness_inputs=['0x3', '0x2', '0x851a9e6a', '0x851a9a6a', '0x0', '0x0', '0x0', '0x851a9e6a', '0x851a9e6a', '0x851a9e6a', '0x851a9e6a', '0x0', '0xfffffffffffffffe', '0x4', '0x2', '0x1', '0x1', '0x2', '0x2'],
+      what='same with a scalar shift: shape (3,2), shift=4, axes=(0,-2): NumPy rolls axis 0 by 8, nmtools by 4'),
  dict(id='C04-roll-shift-beyond-extent', harness='roll_axes_scalar', exclude_define='KF_C04_ROLL_BIGSHIFT', witness_config={'DIM': 2, 'MAXE': 3},
       witness_inputs=['0x3', '0x2', '0x0', '0x0', '0x0', '0x0', '0x0', '0x0', '0x0', '0x0', '0x0', '0x1', '0xfffffffffffffffe', '0x4', '0x2', '0x0', '0x1', '0x0', '0x2'],
       what='same defect with an axis list and a scalar shift: shape (3,2), shift=4, axes=(1,-2)'),
@@ -143,6 +150,10 @@ PENDING_FINDINGS = [
                       '0xfffffffffffffffe', '0x0', '0x1', '0x0', '0x0', '0x0', '0x2'],
       what='view::diagonal(a, offset<0, axis1, axis2): index::diagonal sets index[axis1]=i and index[axis2]=i+offset (diagonal.hpp:80-81), i.e. a negative column index, '
            'instead of index[axis1]=i-offset, index[axis2]=i: shape (3,3), offset=-2, axes (0,1), element 0 reads a[0,-2] (out-of-bounds; NumPy: a[2,0]); the shape is NumPy\'s'),
+ dict(id='C04-diagonal-offset-beyond-matrix', harness='diagonal', exclude_define='KF_C04_DIAGONAL_BEYOND', witness_config={'DIM': 2, 'MAXE': 3, 'KF_C04_DIAGONAL_NEGOFFSET': 1},
+      witness_inputs=['0x1', '0x2', '0x0', '0x0', '0x0', '0x0', '0x0', '0x0', '0x0', '0x0', '0x0', '0x2', '0x1', '0xfffffffffffffffe', '0x0', '0x2', '0x2', '0x2'],
+      what='view::diagonal with an offset more than one step beyond the matrix: index::shape_diagonal takes min(n1, n2-offset) without clamping at 0 (diagonal.hpp:44-49), so the extent is a '
+           'negative number stored as size_t: shape (1,2), offset=2, axis1=1, axis2=-2 -> NumPy shape (0,), nmtools (2^64-1,)'),
  dict(id='C04-arange-empty-range', harness='arange3', exclude_define='KF_C04_ARANGE_EMPTY', witness_config={'RNG': 8, 'MAXSTEP': 3},
       witness_inputs=['0xfffffffffffffff8', '0x8', '0xffffffffffffffff', '0x0'],
       what='view::arange with an empty range (stop on the wrong side of start for the sign of step): index::arange_shape computes ceil_(float(stop-start)/step) and converts the negative '
@@ -166,6 +177,6 @@ CLAIM = dict(
       'column_stack, split (slice arguments; pieces for 1..3 sections), sliding_window (scalar+axis / per-axis / two axes), diagonal, diagflat, tril, triu, where, eye, identity, tri, '
       'full/zeros/ones(_like) and integer arange return NumPy\'s shape and NumPy\'s element, and that pad (constant fill, per-side widths), resize (floor(i*src/dst)) and expand '
       '(spacing insertion with fill) return the shape and element of their documented definitions; the index-level maps (tile, repeat, roll, pad, take, concatenate, resize) are shown in addition on '
-      'bounded shapes of symbolic dimension 1..4. The proof excludes the regions of nine natively reproduced defects (PENDING_FINDINGS).',
+      'bounded shapes of symbolic dimension 1..4. The proof excludes the regions of eleven natively reproduced defects (PENDING_FINDINGS).',
  note='Bounded: extents 1..3 (quick) / 1..4 (thorough) at the view level, 1..6 / 1..8 at the index level; reps/repeats 1..3, pad widths 0..2, shifts in [-2n,2n], spacing 0..2, resize targets 1..5; '
       'binary joins only. Real-grid arange/linspace are outside. Trusted: clang-14 -O1 lowering, engine/ll2c.py, CBMC; validated per run by gate and witness assertions.')
